@@ -138,7 +138,7 @@ fn unmarshal_slice_bytes<'buf, 'fds, E>(
 where
     E: Unmarshal<'buf, 'fds>,
 {
-    let bytes_in_array = ctx.read_u32()? as usize;
+    let bytes_in_array = crate::wire::util::check_array_len(ctx.read_u32()?)?;
     let alignment = E::alignment();
     ctx.align_to(alignment)?;
 
@@ -192,7 +192,7 @@ impl<'buf, 'fds, E: Unmarshal<'buf, 'fds>> Unmarshal<'buf, 'fds> for Vec<E> {
             }
         }
         ctx.align_to(4)?;
-        let bytes_in_array = u32::unmarshal(ctx)? as usize;
+        let bytes_in_array = crate::wire::util::check_array_len(u32::unmarshal(ctx)?)?;
 
         ctx.align_to(E::alignment())?;
 
@@ -213,7 +213,7 @@ impl<'buf, 'fds, K: Unmarshal<'buf, 'fds> + std::hash::Hash + Eq, V: Unmarshal<'
 {
     fn unmarshal(ctx: &mut UnmarshalContext<'fds, 'buf>) -> unmarshal::UnmarshalResult<Self> {
         ctx.align_to(4)?;
-        let bytes_in_array = u32::unmarshal(ctx)? as usize;
+        let bytes_in_array = crate::wire::util::check_array_len(u32::unmarshal(ctx)?)?;
 
         // align even if no elements are present
         ctx.align_to(8)?;
